@@ -132,6 +132,35 @@ def extract():
     else:
         raise ExtractError(f"highest_end_offset: `{b}` not recognised")
 
+    # ---- lock regions of every method of TransferControl ------------------------------------
+    # Recognised form: every method that reaches the shared state does so through exactly the guard of
+    # `self.inner.lock()`; the number of acquisitions per body is reported (1 = the method is one critical
+    # section). A guard that is explicitly dropped, re-bound or scoped away before a second acquisition shows
+    # up as a count of 2; `self.inner` used in any other way is not a recognised form.
+    lock_calls, guard_drops = [], []
+    for mfn in re.finditer(r"\bpub\s+fn\s+(\w+)", tc):
+        name = mfn.group(1)
+        body = fn_body(tc, name, mfn.start())
+        n = len(re.findall(r"\bself\s*\.\s*inner\s*\.\s*lock\s*\(\s*\)", body))
+        other = len(re.findall(r"\bself\s*\.\s*inner\b", body)) - n
+        if other:
+            raise ExtractError(f"TransferControl::{name} reaches self.inner other than through self.inner.lock()")
+        if re.search(r"\btry_lock\s*\(", body):
+            raise ExtractError(f"TransferControl::{name} uses try_lock")
+        if n == 0:
+            continue
+        lock_calls.append((name, n))
+        guards = set(re.findall(r"let\s+(?:mut\s+)?(\w+)\s*=\s*self\s*\.\s*inner\s*\.\s*lock\s*\(\s*\)", body))
+        nd = sum(len(re.findall(r"\bdrop\s*\(\s*" + re.escape(gn) + r"\s*\)", body)) for gn in guards)
+        guard_drops.append((name, nd))
+    required = ["set_peer", "peer", "push_replay", "replay_chunks_from", "request_resume", "wait_for_reconnect",
+                "wait_for_credit", "record_sent", "record_ack", "cancel", "is_cancelled", "cancel_reason",
+                "advance_to_file", "offsets"]
+    for r in required:
+        if r not in [n for n, _ in lock_calls]:
+            raise ExtractError(f"TransferControl::{r} does not take self.inner.lock()")
+    facts["lockCalls"], facts["guardDrops"] = lock_calls, guard_drops
+
     pats = {"credit predicate": r"let in_flight\s*=", "ack cap": r"let capped\s*=",
             "eviction guard": r"while\s+self\.bytes_held", "trailing edge": r"fn highest_end_offset"}
     facts["where"] = {k: SRC + ":" + str(_line_of(full, v)) for k, v in pats.items()}
@@ -148,6 +177,11 @@ def render(f):
         f"  {{ creditZero := {b(f['creditZero'])}, creditAdd := .{f['creditAdd']}, creditLe := {b(f['creditLe'])},",
         f"    ackFileTest := {b(f['ackFileTest'])}, ackCap := {b(f['ackCap'])}, ackStrict := {b(f['ackStrict'])},",
         f"    evictHeldGt := {b(f['evictHeldGt'])}, evictKeepOne := {b(f['evictKeepOne'])}, edgeAdd := .{f['edgeAdd']} }}",
+        "/-- For every method of `TransferControl` that takes the mutex: how many times its body calls",
+        "`self.inner.lock()` (one acquisition = the whole method is one critical section). -/",
+        "def transferLockCalls : List (String × Nat) := [" + ", ".join(f'("{n}", {c})' for n, c in f["lockCalls"]) + "]",
+        "/-- … and how many times it explicitly drops that guard. -/",
+        "def transferGuardDrops : List (String × Nat) := [" + ", ".join(f'("{n}", {c})' for n, c in f["guardDrops"]) + "]",
         "end Repe.Gen",
     ]) + "\n"
 
